@@ -99,7 +99,9 @@ class LoGPicker(BasePickerModel):
 
     def get_params_and_depth(self, scale: nm):
         sigma_px = self._sigma / scale
-        depth = int(np.ceil(sigma_px * 2))
+        # filter kernel radius (truncated at 4 sigma) + radius of the maximum filter, so
+        # that the picks in the core region of a chunk do not depend on the chunking
+        depth = int(np.ceil(sigma_px * 5)) + 1
         return {"sigma": sigma_px}, depth
 
 
@@ -125,7 +127,8 @@ class DoGPicker(BasePickerModel):
     def get_params_and_depth(self, scale: nm):
         sigma1_px = self._sigma_low / scale
         sigma2_px = self._sigma_high / scale
-        depth = int(np.ceil(sigma1_px * 2))
+        # filter kernel radius (truncated at 4 sigma) + radius of the maximum filter
+        depth = int(np.ceil(sigma2_px * 4 + sigma1_px)) + 1
         return {"sigma_low": sigma1_px, "sigma_high": sigma2_px}, depth
 
 
